@@ -11,7 +11,16 @@ of them rejects and the other accepts is reported (model drift of `wf_problem`, 
 the property text also rejects it - a property failure).  The original problems are checked too (the theorems'
 hypothesis `wf_problem P = true` must hold of what the generator produces, otherwise the theorems would be vacuous on
 the sampled instances).
+
+Probes.  The raise sites of the real compilers that ARE reachable inside the supported kind (notes/C08_la.md, class
+(c)) are exercised on every run with the deterministic problems of corpus/c08_la_compile_raises.py: a probe that raises
+is a failure of C08 ("compile succeeds inside the supported kind"), reported with C08's tag scheme
+(compiler id, "compile-raises", exception type, shape tags) plus one narrow shape tag, so that it is classified by its
+open finding in KNOWN_FINDINGS.json; a probe that no longer raises is reported as drift
+("probe-no-longer-reproduces": the finding should be closed); controls and regression cases must compile.
 """
+import importlib.util
+import os
 import time
 
 from harness import compcheck as cc
@@ -25,9 +34,58 @@ SHARED = 1 | 8 | 16 | 32
 BITS = ((1, "duplicate action / fluent / type id"), (8, "fluent signature"), (16, "an action"), (32, "goals / state invariants"))
 
 
+def _corpus():
+    path = os.path.join(os.path.dirname(os.path.dirname(os.path.dirname(os.path.abspath(__file__)))), "corpus",
+                        "c08_la_compile_raises.py")
+    spec = importlib.util.spec_from_file_location("c08_la_compile_raises", path)
+    mod = importlib.util.module_from_spec(spec)
+    spec.loader.exec_module(mod)
+    return mod
+
+
+def run_probes(ctx):
+    """open findings exercised: every probe must still raise inside the supported kind; controls / regressions compile"""
+    m = _corpus()
+    stats = {"probes": 0, "probes_raising": 0, "probes_no_longer_reproducing": 0, "controls_and_regressions": 0,
+             "by_finding": {}}
+    for fid, cid, build, shape, exc in m.PROBES:
+        problem = build()
+        sup, res, ex = m.attempt(cid, problem)
+        stats["probes"] += 1
+        base = ["c08", cid, "probe", shape]
+        payload = {"compiler": cid, "finding": fid, "probe": build.__name__, "doc": " ".join((build.__doc__ or "").split()),
+                   "supports_kind": bool(sup), "problem_text": str(problem),
+                   "raised": None if ex is None else "%s: %s" % (type(ex).__name__, " ".join(str(ex).split())[:300])}
+        if ex is not None and sup:
+            stats["probes_raising"] += 1
+            stats["by_finding"][fid] = stats["by_finding"].get(fid, 0) + 1
+            ctx.fail("oracle", "%s.compile raised %s: %s on a problem of its supported kind (probe %s)" % (
+                cid, type(ex).__name__, " ".join(str(ex).split())[:200], build.__name__),
+                base + ["compile-raises", type(ex).__name__] + cc.shape_tags(problem), payload, True)
+        else:
+            stats["probes_no_longer_reproducing"] += 1
+            ctx.fail("corr", "probe %s of the open finding %s no longer reproduces (%s): close or update the finding" % (
+                build.__name__, fid, "compile succeeded" if ex is None else "the problem is outside the supported kind now"),
+                base + ["probe-no-longer-reproduces", fid], payload, False)
+    others = [("control", cid, build) for cid, build in m.CONTROLS] + \
+             [("regression:" + commit, cid, build) for commit, cid, build in m.REGRESSIONS]
+    for what, cid, build in others:
+        problem = build()
+        sup, res, ex = m.attempt(cid, problem)
+        stats["controls_and_regressions"] += 1
+        if ex is not None or not sup:
+            ctx.fail("oracle", "%s.compile %s on the %s case %s" % (
+                cid, "does not support" if not sup else "raised %s: %s" % (type(ex).__name__, " ".join(str(ex).split())[:200]),
+                what, build.__name__),
+                ["c08", cid, what, "compile-raises", type(ex).__name__ if ex is not None else "unsupported"] + cc.shape_tags(problem),
+                {"compiler": cid, "case": build.__name__, "problem_text": str(problem)}, True)
+    return stats
+
+
 def run(ctx):
     from harness.props.c08 import nproblem, py_wf
     t0 = time.time()
+    probe_stats = run_probes(ctx)
     per = 3 if ctx.quick else 40
     cases, _ = cc.build_cases(ctx, per, 12 if ctx.quick else 40, adversarial=0.85, only=MODELLED)
     cases = [c for c in cases if c.result is not None and c.result.problem is not None]
@@ -80,7 +138,7 @@ def run(ctx):
             else:
                 ctx.fail("corr", "%s: a generated ORIGINAL problem is not wf_problem (code %d): the theorems' hypothesis "
                                  "fails on the sample" % (c.spec["id"], lc), tags + ["original-ill-formed"], payload, False)
-    return {"layerA_wf_problems_checked": len(terms), "layerA_wf_disagreements": disagreements,
+    return {"probes": probe_stats, "layerA_wf_problems_checked": len(terms), "layerA_wf_disagreements": disagreements,
             "layerA_wf_ill_formed": ill, "layerA_wf_by_compiler": by, "layerA_wf_skipped_outside_fragment": skipped,
             "layerA_wf_theorems": "Props/C08_la.v C08_LA_{sir,btr,quant,cer,neg,ground,dcr}_wf (+ shapes, conflict-freeness)",
             "layerA_wf_wall_seconds": round(time.time() - t0, 1)}
